@@ -182,24 +182,29 @@ def validate(traces, report, name, max_steps=6000, max_ev=300, timeout=900, work
     if not traces:
         return {}
     d = workdir(name)
-    path = os.path.join(d, "traces.ndjson")
-    tlc.write_ndjson(path, traces)
-    res = tlc.run_tlc("BFTrace", env={"CASES": path, "MAXSTEPS": max_steps, "MAXEV": max_ev},
-                      workers=workers or max(2, NCPU - 2), timeout=timeout, coverage=True)
-    report.add_tlc(res)
-    # per-action counts of the canonical machine (TLC -coverage): an action never taken was never exercised
-    ac = report.coverage.setdefault("bf_action_coverage", {})
-    for name, (distinct, total) in res.coverage.items():
-        if name.startswith("Observe(") and name.endswith(")"):
-            ac[name[8:-1]] = ac.get(name[8:-1], 0) + total
     verdicts = {}
-    for r in res.records:
-        if isinstance(r, dict) and "verdict" in r:
-            verdicts[r["id"]] = r
-    missing = [t["id"] for t in traces if t["id"] not in verdicts]
-    if missing:
-        raise ToolError("TLC returned no verdict for %d traces (first: %s)\n%s" % (
-            len(missing), missing[0], res.raw_tail))
+    CH = 15000
+    for k0 in range(0, len(traces), CH):
+        part = traces[k0:k0 + CH]
+        path = os.path.join(d, "traces.ndjson" if len(traces) <= CH else "traces-%d.ndjson" % (k0 // CH))
+        tlc.write_ndjson(path, part)
+        res = tlc.run_tlc("BFTrace", env={"CASES": path, "MAXSTEPS": max_steps, "MAXEV": max_ev},
+                          workers=workers or max(2, NCPU - 2), timeout=timeout, coverage=True)
+        report.add_tlc(res)
+        # per-action counts of the canonical machine (TLC -coverage): an action never taken was never exercised
+        ac = report.coverage.setdefault("bf_action_coverage", {})
+        for nm, (distinct, total) in res.coverage.items():
+            if nm.startswith("Observe(") and nm.endswith(")"):
+                ac[nm[8:-1]] = ac.get(nm[8:-1], 0) + total
+        for r in res.records:
+            if isinstance(r, dict) and "verdict" in r:
+                verdicts[r["id"]] = r
+        missing = [t["id"] for t in part if t["id"] not in verdicts]
+        if missing:
+            raise ToolError("TLC returned no verdict for %d traces (first: %s)\n%s" % (
+                len(missing), missing[0], res.raw_tail))
+        if len(traces) > CH:
+            os.remove(path)
     report.count("traces_validated_against_impl", len(traces))
     return verdicts
 
